@@ -29,7 +29,7 @@ MANIFEST = {
             "each is offered by accept exactly once, in order. The model is tied to the Rust by running the extracted model and the real "
             "qrecovery::streams::DataStreams on the same configurations and op lists every run, and the clauses are evaluated directly on the implementation's observations.",
     "note": "Trusted: Coq kernel, extraction, OCaml driver, Rust harness, Python generators/oracle. Model hand-written; correspondence checked, not proved. "
-            "Known findings F14 (index == limit accepted, pinned by a unit test) and F27 (DemandConcurrency lets STREAMS_BLOCKED lower/raise the limit) are reported as KNOWN-FINDING.",
+            "Known finding F14 (index == limit accepted, pinned by a unit test) is reported as KNOWN-FINDING; F27 (STREAMS_BLOCKED could lower or choose the limit under DemandConcurrency) is repaired by a fix: commit, its corpus case is a regression case and the theorems c12_limit_monotone* / c12_blocked_* state the repaired behaviour.",
     "technique": "Coq proof (invariants over operation lists, state-machine case analysis) + differential correspondence model/implementation + direct oracle",
 }
 
@@ -37,7 +37,14 @@ oracle = sc.oracle_for(sc.C12_CLAUSES)
 
 
 def classify(case, msg, obs):
-    """maps an oracle message to a known finding id (known_findings.json) or None"""
+    """maps an oracle message to a known finding id, but only while that finding is listed as OPEN in
+    known_findings.json: once a finding is repaired its class is an ordinary violation again"""
+    import vlib
+    fid = _classify(case, msg, obs)
+    return fid if fid in {e["id"] for e in vlib.load_known("C12")} else None
+
+
+def _classify(case, msg, obs):
     if msg.startswith("accept:") and "demands" in msg and "StreamLimit" in msg:
         # F14: the accepted index equals the advertised limit exactly
         for (c, m) in sc.judge(case, obs):
@@ -47,8 +54,6 @@ def classify(case, msg, obs):
                 if mm and int(mm.group(1)) == int(mm.group(2)):
                     return "F14"
                 return None
-    if msg.startswith("limitfp:") and int(case.cfg[2]) == 1 and any(t == 12 for t, a in case.ops):
-        return "F27"
     return None
 
 
